@@ -43,6 +43,15 @@ func GenesisForProfile(profile string, hs uint64) GenesisCfg {
 		}
 		rho := []int64{5, 9, 10, 13, 19, 25, 50, 0}[r.Intn(8)] // tenths of the halved reward
 		apy := sdk.NewDec(halved).MulInt64(p.HalvingPeriod / 2).MulInt64(rho).QuoInt64(10 * 10 * n)
+		// (drawn last, so that the configurations of earlier histories stay what they were) values that used to pass
+		// Params.Validate although the begin-blocker cannot mint them: a negative yield is a decimal string too, and a coin
+		// with a negative amount decodes from a genesis file. Since the fix of F23 the parameter store refuses both.
+		if r.Chance(12) {
+			apy = apy.Neg()
+		}
+		if r.Chance(6) {
+			p.BlockReward = sdk.Coin{Denom: Denom, Amount: sdk.NewInt(-br)}
+		}
 		p.AnnualPercentageYield = apy.String()
 		cfg.NodeParams = &p
 		pool := DefaultPool(Denom)
@@ -133,7 +142,10 @@ func ReplayOpt(path string, out io.Writer, restarts bool) int {
 	enc := json.NewEncoder(wr)
 	for _, h := range hs {
 		resetGlobals()
-		c := NewChain(GenesisForProfile(h.profile, h.id))
+		c, rejected := TryNewChain(GenesisForProfile(h.profile, h.id))
+		if rejected != "" {
+			continue // the application refuses this genesis: no chain, no history
+		}
 		w := NewWorld(c)
 		enc.Encode(M{"genesis": M{"env": w.EnvJSON(), "state": w.Dump(w.C.Ctx())}, "hist": h.id, "profile": h.profile})
 		for i := range h.ops {
